@@ -91,7 +91,7 @@ class QueryLeg(Leg):
     shard = 40
 
     def observe(self, case):
-        return Q.build_and_query(case["ops"], case["queries"])
+        return Q.build_and_query(case["ops"], case["queries"], caching=bool(case.get("caching")))
 
     def term(self, case, obs):
         if obs is None:
@@ -113,9 +113,9 @@ class QueryLeg(Leg):
         qs = case["queries"]
         if len(qs) > 1:
             for i in range(len(qs)):
-                yield {"ops": case["ops"], "queries": [qs[i]]}
+                yield {**case, "queries": [qs[i]]}
         for c in H.shrink_ops(case["ops"]):
-            yield {"ops": c, "queries": qs}
+            yield {**case, "ops": c}
 
     def stats(self, case, obs, acc):
         if obs is None:
